@@ -50,6 +50,8 @@ type c20case struct {
 func c20decode(cs c20case) (err error) {
 	ctx := quietCtx()
 	switch cs.kind {
+	case "skip":
+		return nil
 	case "message":
 		m := &client.Message{}
 		return m.Deserialize(bytes.NewReader(cs.data))
@@ -429,6 +431,7 @@ func runC20(c *Ctx) {
 	}
 	defer os.RemoveAll(dir)
 	next := 0
+	hangs := map[string]int{}
 	worst := uint64(0)
 	path := dir + "/cases"
 	{
@@ -489,6 +492,21 @@ func runC20(c *Ctx) {
 			tail = tail[len(tail)-300:]
 		}
 		if hung {
+			hangs[cs.kind]++
+			if hangs[cs.kind] == 3 {
+				// this kind of record hangs again and again: do not spend ten seconds on each of
+				// the remaining ones
+				for i := next + started + 1; i < len(cases); i++ {
+					if cases[i].kind == cs.kind {
+						cases[i].kind = "skip"
+					}
+				}
+				var buf bytes.Buffer
+				for _, x := range cases {
+					fmt.Fprintf(&buf, "%s %s\n", x.kind, hex.EncodeToString(x.data))
+				}
+				os.WriteFile(path, buf.Bytes(), 0o644)
+			}
 			c.Violate("hang", c20class(cs), "decoding %d input bytes (%s) did not return within 10 s (the second use of the same repository object after a failed decode counts): input: %s", len(cs.data), cs.note, hexHead(cs.data))
 			next += started + 1
 			continue
